@@ -112,19 +112,6 @@ def strictWorld (v1w : CheckV1.World) : CheckV1.World :=
   let ct := v1w.ctxTuples.filter (strictCond v1w.model)
   { v1w with stored := st, ctxTuples := ct }
 
-/-- the precondition of V2-B(recursive): a recursive edge whose tuples carry conditions, and a tuple of the relation
-it reads whose condition is not met — `Recursive.buildTupleMapperForID` lets such a tuple claim its target in the
-breadth-first search's own visited set before the condition filter drops it -/
-def potBrec (w : CheckV2.World) : Bool :=
-  w.graph.edges.any (fun e =>
-    e.recRel ≠ "" && !e.tc && (e.etype = 0 || e.etype = 2) &&
-    (let conds := if e.etype = 0 then e.conds else
-        (match tuplesetEdge w.graph e.tupleset (typOf e.dst) with | some ts => ts.conds | none => [""])
-     let rel := if e.etype = 0 then relOf e.dst else relOf e.tupleset
-     let typ := if e.etype = 0 then typOf e.dst else typOf e.tupleset
-     conds ≠ [""] &&
-     (w.ctxTuples ++ w.stored).any (fun t => t.rel = rel && typeOf t.obj = typ && evalCond w.model w.req.ctx t ≠ .tt)))
-
 /-- why the answer `obs` of run `run` differs from the expected `want`: a known finding only when its precondition
 is present *and* the model reproduces the behaviour; anything else is "unexplained" (a regression) -/
 def diagnose (w : CheckV2.World) (v1w : CheckV1.World) (want obs : String) (run : String := "d1") : String :=
@@ -137,9 +124,6 @@ def diagnose (w : CheckV2.World) (v1w : CheckV1.World) (want obs : String) (run 
       ctxTuples := w.ctxTuples.filter (fun t => evalCond w.model w.req.ctx t ≠ .err) }
     if want = "Econd" && (modelClasses noErr 2).all (· = obs) then
       "V2-E a condition evaluation error was swallowed by the filtered iterator (here: the bottom-up read of the weight2 / recursive strategy)"
-    -- only the recursive strategy (forced, or chosen by the server's planner), only a lost `true`, only with the precondition
-    else if (run = "r1" || run = "r25" || run = "srv") && want = "T" && obs = "F" && (modelClasses w 2).contains "T" && potBrec w then
-      "V2-B(recursive) Recursive.buildTupleMapperForID still applies the visited filter before the condition filter: a tuple dropped by its condition has already claimed its target in the breadth-first search (order dependent)"
     else "unexplained (the model of the engine does not reproduce this answer)"
   else
   let tainted := (checkSet w 2).any (fun o => match o with | .ok _ t => t | _ => false)
